@@ -40,6 +40,7 @@ type Profile struct {
 	OptShapes      bool // bias towards shapes the optimizer rewrites (x*0, x+0, copies, constant branches)
 	FreeVars       bool // declare fv0:int fv1:bool fv2:str as untyped-at-runtime inputs (C03/C15)
 	RareIndexSet bool // `a[i] = v` / `$ o.f = v` statements are rare (the compiler has no case for them: the whole module falls back to the interpreter)
+	ReqVariants bool // body routes under PUT / PATCH / DELETE too, bodies under other content types, non-object and malformed bodies
 	ObserveAll int  // percent of routes whose last return of a route also returns every route-scope variable
 	Moods      bool // draw a per-case mood: clean (well-typed program, well-formed requests), mild, or the profile's full fault rate
 	Exclude    map[string]bool
@@ -1431,6 +1432,9 @@ func (g *G) genRoute(idx int) (Route, []Request) {
 		if g.pct("body", 50) {
 			hasBody = true
 			r.Method = "POST"
+			if g.p.ReqVariants {
+				r.Method = g.pick("bodymethod", []string{"POST", "POST", "PUT", "PATCH", "DELETE", "DELETE"})
+			}
 			g.declare("input", &vinfo{ty: "obj", ro: true, fields: map[string]string{"s": "str", "b": "bool", "f": "float"}})
 		}
 	}
@@ -1525,6 +1529,25 @@ func (g *G) genRoute(idx int) (Route, []Request) {
 			b := map[string]interface{}{"s": g.pick("bs", strPool[:8]), "b": g.n("bb", 2) == 1, "f": []float64{1.5, 2, 0.25, 10}[g.n("bf", 4)]}
 			js, _ := json.Marshal(b)
 			rq.Body = js
+			if g.p.ReqVariants && g.pct("reqvar", 25) {
+				switch g.n("reqvark", 7) {
+				case 0:
+					rq.Headers = map[string]string{"Content-Type": "application/json; charset=utf-8"}
+				case 1:
+					rq.Headers = map[string]string{"Content-Type": "text/plain"}
+				case 2:
+					rq.Headers = map[string]string{"Content-Type": "application/jsonx"}
+				case 3:
+					rq.Body = []byte(`[1, 2]`)
+				case 4:
+					rq.Body, rq.RawBody = nil, `{"s": "trunc`
+				case 5:
+					rq.Body = []byte(`"just a string"`)
+				case 6:
+					rq.Body, rq.RawBody = nil, string(js)+` {"s": "second document"}`
+				}
+				g.event("request-body-variant")
+			}
 		}
 		reqs = append(reqs, rq)
 	}
